@@ -72,8 +72,11 @@ def conf_dict_to_tlv(conf_dict: ConfDict) -> list[bytes]:
             len(tlv_blocks[-1] + last_postface + preface + data + postface)
             > MAX_TLVBLOCK_SIZE
         ):
-            tlv_blocks[-1] += last_postface
-            tlv_blocks.append(preface + data)
+            if tlv_blocks[-1]:
+                tlv_blocks[-1] += last_postface
+                tlv_blocks.append(preface + data)
+            else:
+                tlv_blocks[-1] = preface + data
             last_preface, last_postface = preface, postface
         elif preface == last_preface and postface == last_postface:
             tlv_blocks[-1] += data
